@@ -135,6 +135,10 @@ namespace {
         throw std::logic_error("bxdecay0::get_dbd_modes: Invalid format for file '" + filename
                                + "'! Cannot decode BB mode!");
       }
+      if (dbd_mode < bxdecay0::DBDMODE_UNDEF || dbd_mode > bxdecay0::DBDMODE_MAX) {
+        throw std::logic_error("bxdecay0::get_dbd_modes: Invalid format for file '" + filename
+                               + "'! BB mode out of range!");
+      }
       record.dbd_mode = static_cast<bxdecay0::dbd_mode_type>(dbd_mode);
 
       // Label:
@@ -148,6 +152,10 @@ namespace {
       if (!parse_iss) {
         throw std::logic_error("bxdecay0::get_dbd_modes: Invalid format for file '" + filename
                                + "'! Cannot decode legacy Decay0 mode");
+      }
+      if (legacy_modebb > bxdecay0::LEGACY_MODEBB_MAX) {
+        throw std::logic_error("bxdecay0::get_dbd_modes: Invalid format for file '" + filename
+                               + "'! Legacy Decay0 mode out of range!");
       }
       if (legacy_modebb >= 0) {
         record.legacy_modebb = static_cast<bxdecay0::legacy_modebb_type>(legacy_modebb);
